@@ -108,6 +108,9 @@ def build(tier):
     tdb = TypeDef("G", "struct", "named", [Field("T", "t"), Field("Vec<T>", "l")], generics=["T"], generics_decl="<T: Clone + std::fmt::Debug>", generics_use="<T>",
                   where="where T: PartialEq", derives=TS_ONLY, vals=False)
     out.append(gcase({"family": "generic-bounds"}, tdb, [("T", None)], 1, [(a,) for a in ARGS]))
+    # concrete(..): every case below once as a struct and once as an enum (container attributes of the two
+    # item kinds are parsed and merged by different code)
+    n_before_concrete = len(out)
     # concrete(..) on each subset of two parameters
     for conc, params, keep in ((["T"], [("U", None)], (False, True)), (["U"], [("T", None)], (True, False)), (["T", "U"], [], (False, False))):
         cattr = "#[ts(concrete(" + ", ".join((c + " = " + ("i32" if c == "T" else "St")) for c in conc) + "))]"
@@ -126,6 +129,12 @@ def build(tier):
     out.append(gcase({"family": "generic-concrete", "concrete": ["T"], "with_default": True}, td, [], 1, [("i32",)], concrete_names=(False,)))
     td = TypeDef("G", "struct", "named", [Field("T", "t"), Field("U", "u"), Field("V", "v")], attrs=["#[ts(concrete(U = St))]"], generics=["T", "U", "V"], generics_decl="<T, U = String, V = i32>", generics_use="<T, U, V>", derives=TS_ONLY, vals=False)
     out.append(gcase({"family": "generic-concrete", "concrete": ["U"], "with_default": True}, td, [("T", None), ("V", "number")], 3, [(a, "St", b) for a in ARGS[:4] for b in ARGS[:3]], concrete_names=(True, False, True)))
+    for c in list(out[n_before_concrete:]):
+        td = c.types[0]
+        etd = TypeDef("G", "enum", variants=[Variant("A", "named", list(td.fields)), Variant("B", "unit")], attrs=list(td.attrs),
+                      generics=list(td.generics), generics_decl=td.generics_decl, generics_use=td.generics_use, where=td.where,
+                      derives=td.derives, vals=False)
+        out.append(Case({**c.klass, "item": "enum"}, [etd], list(c.body), strings=c.strings, extra_items=c.extra_items, decl_types=c.decl_types))
     # const parameters before / between type parameters
     tdo = TypeDef("G", "struct", "named", [Field("[T; N]", "arr"), Field("T", "t")], generics=["T"], generics_decl="<const N: usize, T>", generics_use="<N, T>", derives=TS_ONLY, vals=False)
     out.append(gcase({"family": "generic-const-order", "order": "const-first"}, tdo, [("T", None)], 1, [(a,) for a in ARGS[:6]], fixed_prefix="2"))
